@@ -12,6 +12,29 @@
 
 using namespace foonathan::memory;
 
+#ifdef FOONATHAN_MEMORY_VERIF
+// verification hook: scheduling points before the shared-memory steps of the stack list
+// null unless a test harness installs a scheduler
+namespace foonathan
+{
+    namespace memory
+    {
+        namespace detail
+        {
+            void (*verif_yield_hook)(const char* tag) = nullptr;
+        }
+    } // namespace memory
+} // namespace foonathan
+#define FOONATHAN_MEMORY_VERIF_YIELD(Tag)                                                          \
+    do                                                                                             \
+    {                                                                                              \
+        if (foonathan::memory::detail::verif_yield_hook)                                           \
+            foonathan::memory::detail::verif_yield_hook(Tag);                                      \
+    } while (false)
+#else
+#define FOONATHAN_MEMORY_VERIF_YIELD(Tag)
+#endif
+
 namespace
 {
     void default_growth_tracker(std::size_t) noexcept {}
@@ -79,9 +102,11 @@ public:
 
     temporary_stack* find_unused()
     {
+        FOONATHAN_MEMORY_VERIF_YIELD("find_unused:load-first");
         for (auto ptr = first.load(); ptr; ptr = ptr->next_)
         {
             auto value = false;
+            FOONATHAN_MEMORY_VERIF_YIELD("find_unused:cas-in_use");
             if (ptr->in_use_.compare_exchange_strong(value, true))
                 return static_cast<temporary_stack*>(ptr);
         }
@@ -94,16 +119,20 @@ public:
         if (auto ptr = find_unused())
         {
             FOONATHAN_MEMORY_ASSERT(ptr->in_use_);
+            FOONATHAN_MEMORY_VERIF_YIELD("create:adopt");
             ptr->stack_ = detail::temporary_stack_impl(size);
             return ptr;
         }
+        FOONATHAN_MEMORY_VERIF_YIELD("create:new");
         return create_new(size);
     }
 
     void clear(temporary_stack& stack)
     {
         // stack should be empty now, so shrink_to_fit() clears all memory
+        FOONATHAN_MEMORY_VERIF_YIELD("clear:shrink");
         stack.stack_.shrink_to_fit();
+        FOONATHAN_MEMORY_VERIF_YIELD("clear:store-in_use");
         stack.in_use_ = false; // mark as free
     }
 
@@ -135,6 +164,7 @@ namespace
     {
         ~thread_exit_detector_t() noexcept
         {
+            FOONATHAN_MEMORY_VERIF_YIELD("thread-exit");
             if (temp_stack)
                 // clear automatically on thread exit, as the initializer's destructor does
                 // note: if another's thread_local variable destructor is called after this one
@@ -148,7 +178,9 @@ namespace
 
 detail::temporary_stack_list_node::temporary_stack_list_node(int) noexcept : in_use_(true)
 {
+    FOONATHAN_MEMORY_VERIF_YIELD("push:load-first");
     next_ = temporary_stack_list_obj.first.load();
+    FOONATHAN_MEMORY_VERIF_YIELD("push:cas-first");
     while (!temporary_stack_list_obj.first.compare_exchange_weak(next_, this))
         ;
     (void)&thread_exit_detector; // ODR-use it, so it will be created
@@ -169,6 +201,7 @@ detail::temporary_allocator_dtor_t::~temporary_allocator_dtor_t() noexcept
 temporary_stack_initializer::temporary_stack_initializer(std::size_t initial_size)
 {
     (void)&thread_exit_detector; // ODR-use it also if an existing stack is adopted
+    FOONATHAN_MEMORY_VERIF_YIELD("initializer:ctor");
     if (!temp_stack)
         temp_stack = temporary_stack_list_obj.create(initial_size);
 }
@@ -179,6 +212,7 @@ temporary_stack_initializer::~temporary_stack_initializer() noexcept
     // but can get rid of all the memory
     if (temp_stack)
     {
+        FOONATHAN_MEMORY_VERIF_YIELD("initializer:dtor");
         temporary_stack_list_obj.clear(*temp_stack);
         // the stack is free for other threads now, this thread must not keep using it
         temp_stack = nullptr;
@@ -188,8 +222,10 @@ temporary_stack_initializer::~temporary_stack_initializer() noexcept
 temporary_stack& foonathan::memory::get_temporary_stack(std::size_t initial_size)
 {
     (void)&thread_exit_detector; // ODR-use it also if an existing stack is adopted
+    FOONATHAN_MEMORY_VERIF_YIELD("get_temporary_stack");
     if (!temp_stack)
         temp_stack = temporary_stack_list_obj.create(initial_size);
+    FOONATHAN_MEMORY_VERIF_YIELD("get_temporary_stack:have");
     return *temp_stack;
 }
 
